@@ -39,6 +39,9 @@ class Prop:
             if form.endswith("_sub"):
                 sc["sub_delay"] = ctx.new_source("cold", prefix="p", maxn=1, positive_first=True)
         sc["sources"] = ctx.sources
+        off = rng.choice([None, None, None, 37, 123, 411])
+        if off and "absolute" not in form:
+            sc["sub2_t"] = 205 + off
         return sc
 
     def build(self, w, sc):
